@@ -572,7 +572,11 @@ def _container_case(case):
     fmt = ImageFormats[fmt_name.upper()]
     thumb = ImageFormats[thumb_name.upper()]
     sheet = {}
-    if extras and version >= (7, 3):
+    if extras and version >= (7, 3) and (w * 2 + h + frames) % 4 == 0:
+        # the largest sheet the format allows: 64 sequences, ids 0..63
+        sheet = {i: SheetSequence([(0.5 + i, TexCoord(0.0, 0.0, 0.5, 0.5), TexCoord(0, 0, 1, 1), TexCoord(0, 0, 1, 1),
+                                    TexCoord(0, 0, 1, 1))], clamp=bool(i % 2), duration=0.5 + i) for i in range(64)}
+    elif extras and version >= (7, 3):
         sheet = {3: SheetSequence([(1.5, TexCoord(0.0, 0.0, 0.5, 0.5), TexCoord(0, 0, 1, 1), TexCoord(0, 0, 1, 1),
                                     TexCoord(0, 0, 1, 1))], clamp=True, duration=1.5)}
     vtf = VTF(w, h, version=version, ref=(0.25, 0.5, 0.75), frames=frames, bump_scale=2.5, sheet_info=sheet,
@@ -734,7 +738,70 @@ def _replay_container(inp):
 
 
 b_container.replay = _replay_container
-BOUNDED = [b_container]
+def _frame_copy_case(case):
+    """Frames filled from one another and edited afterwards: each saved frame holds what was put into *it*."""
+    import random as _r
+    from srctools.vtf import VTF, ImageFormats
+    w, h, version, target_state = case
+    rng = _r.Random(w * 131 + h * 17 + version[1])
+    vtf = VTF(w, h, version=version, frames=3, fmt=ImageFormats.RGBA8888, thumb_fmt=ImageFormats.NONE)
+    f0, f1, f2 = vtf.get(frame=0), vtf.get(frame=1), vtf.get(frame=2)
+    pix = {}
+    for y in range(h):
+        for x in range(w):
+            pix[x, y] = tuple(rng.randrange(256) for _ in range(4))
+            f0[x, y] = pix[x, y]
+    if target_state == 'cleared':
+        f1[0, 0] = (1, 2, 3, 4)
+        f1.clear()
+    elif target_state == 'written':
+        f1[0, 0] = (1, 2, 3, 4)
+    f1.copy_from(f0)                  # frame 1 := frame 0 (a never-touched, a cleared or a written target)
+    f2.copy_from(f1)
+    edit = (w - 1, h - 1)
+    f0[edit] = (9, 8, 7, 6)           # later edits of the source / the middle frame must not reach the copies
+    f1[0, 0] = (5, 5, 5, 5)
+    buf = io.BytesIO()
+    vtf.save(buf)
+    buf.seek(0)
+    back = VTF.read(buf)
+    back.load()
+    want = {0: dict(pix), 1: dict(pix), 2: dict(pix)}
+    want[0][edit] = (9, 8, 7, 6)
+    want[1][0, 0] = (5, 5, 5, 5)
+    if (w, h) == (1, 1):
+        want[0][0, 0] = (9, 8, 7, 6)
+    for fr in range(3):
+        got = back.get(frame=fr)
+        for (x, y), px in want[fr].items():
+            if tuple(got[x, y]) != px:
+                return (f'frame {fr} pixel {(x, y)} reads {tuple(got[x, y])}, expected {px} (frame 1 := frame 0, '
+                        f'frame 2 := frame 1, then frame 0 and frame 1 were edited; target was {target_state})')
+    return None
+
+
+def _job_frame_copy(case):
+    try:
+        return _frame_copy_case(case)
+    except Exception as e:
+        return f'{type(e).__name__}: {e}'
+
+
+@bounded('C15.B-frame-copy', bound='3-frame RGBA8888 textures 1x1..8x4, versions 7.2 / 7.4 / 7.5: frame 1 := frame 0 '
+         '(target never touched / cleared / already written), frame 2 := frame 1, then source and middle frame edited, '
+         'save, read', rule='one case per size x version x target state')
+def b_frame_copy(ctx):
+    jobs = [(w, h, v, st) for (w, h) in ((1, 1), (2, 2), (4, 2), (8, 4)) for v in ((7, 2), (7, 4), (7, 5))
+            for st in ('fresh', 'cleared', 'written')]
+    for job, bad in ctx.pmap(_job_frame_copy, jobs, job_timeout=20.0):
+        ctx.case(job)
+        if bad:
+            ctx.violation(f'frame_copy={job[0]}x{job[1]}.v{job[2][1]}.{job[3]}', bad, [job[0], job[1], list(job[2]), job[3]])
+
+
+b_frame_copy.replay = lambda inp: (lambda r: {'failed': bool(r), 'observation': r})(
+    _job_frame_copy((inp[0], inp[1], tuple(inp[2]), inp[3])))
+BOUNDED = [b_container, b_frame_copy]
 
 
 # ------------------------------------------------------------------------------------------------ scale_down
